@@ -17,7 +17,7 @@ from fractions import Fraction
 
 from ..core.tree import AnalysisError
 from ..core.constfold import Folder, EnumClass, Inst
-from ..core.astutil import walk_no_nested, call_name, short, src
+from ..core.astutil import walk_no_nested, call_name, short, src, enclosing_conjuncts
 from ..engines.symeval import SymEvaluator, Poly, SObj, SStr, Fmt, NONE, SNone, Raised
 from ..engines.affine import check_affine
 from ..engines import structural as S
@@ -165,7 +165,7 @@ def region_creation(ctx, report):
                  "a layout gets a region as soon as ANY of origin, extent, padding, alignment is present",
                  {"tested": tested, "required": want, "problems": bad[:4], "paths_creating": len(created),
                   "paths_skipping": len(skipped)}, "1")
-    col = ctx.index.get_function(DFXP, "RegionCreator._collect_unique_regions")
+    col = ctx.index.get_function(DFXP, "RegionCreator._collect_unique_regions", inline=True)
     report.covered(col)
     adds = [src(c.args[0]) for c in walk_no_nested(col.node) if isinstance(c, ast.Call) and
             (call_name(c) or "").endswith("unique_regions.add")]
@@ -311,7 +311,7 @@ def verbatim(ctx, report, folder):
 
 
 def fallback(ctx, report):
-    fn = ctx.index.get_function(DFXP, "RegionCreator.get_positioning_info")
+    fn = ctx.index.get_function(DFXP, "RegionCreator.get_positioning_info", inline=True)
     report.covered(fn)
     seq = []
     for n in walk_no_nested(fn.node):
@@ -327,10 +327,31 @@ def fallback(ctx, report):
             guards.append(src(n.test))
     ok = len(guards) == 4 and guards[0] == "caption_node" and all(g.startswith("not layout_info") for g in guards[1:])
     report.check(ok, "R-GUARD", fn, "a coarser level is consulted only when the finer one gave nothing", guards, "4")
-    t = src(fn.node)
-    ok = "region_id = self._region_map.get(layout_info)" in t and "region_id = DFXP_DEFAULT_REGION_ID" in t \
-        and "if not region_id:" in t
-    report.check(ok, "R-GUARD", fn, "an unknown layout falls back to the default region id", None, "4")
+    ok, how = region_id_source(fn)
+    report.check(ok, "R-GUARD", fn, "an unknown layout falls back to the default region id", {"region_id_is": how}, "4")
+
+
+def region_id_source(fn):
+    """(ok, description): the region id handed out is `table.get(layout)` with DFXP_DEFAULT_REGION_ID
+    as the fallback - spelled as a second assignment under `if not id`, as `... or DEFAULT`, or as the
+    default argument of get()."""
+    rets = [n.value for n in walk_no_nested(fn.node) if isinstance(n, ast.Return) and n.value is not None]
+    if len(rets) != 1 or not isinstance(rets[0], ast.Tuple) or not isinstance(rets[0].elts[0], ast.Name):
+        raise AnalysisError("get_positioning_info: returned (region id, attributes) pair not recognised")
+    rid = rets[0].elts[0].id
+    defs = [n for n in walk_no_nested(fn.node) if isinstance(n, ast.Assign) and len(n.targets) == 1 and src(n.targets[0]) == rid]
+    texts = [src(d.value) for d in defs]
+    get = r"self\._region_map\.get\((\w+)\)"
+    if len(defs) == 1:
+        m = re.fullmatch(get + r" or DFXP_DEFAULT_REGION_ID", texts[0]) or \
+            re.fullmatch(r"self\._region_map\.get\((\w+), DFXP_DEFAULT_REGION_ID\)", texts[0])
+        return (m is not None), texts
+    if len(defs) == 2:
+        first = re.fullmatch(get, texts[0])
+        guards = enclosing_conjuncts(fn, defs[1]) or []
+        ok = first is not None and texts[1] == "DFXP_DEFAULT_REGION_ID" and guards in ([f"not ({rid})"], [f"{rid} is None"])
+        return ok, {"assignments": texts, "second_under": guards}
+    return False, texts
 
 
 def default_before_use(ctx, report):
@@ -379,19 +400,5 @@ def keys_and_split(ctx, report):
     for name in ("Size", "Point", "Stretch", "Padding", "Alignment", "Layout"):
         S.rule_eqhash(report, mod.classes[name], {"Layout": {"webvtt_positioning": "not a geometric component"}},
                       clause="5")
-    fn = ctx.index.get_function(VTT, "WebVTTWriter._group_cues_by_layout")
-    report.covered(fn)
-    tests = [n for n in walk_no_nested(fn.node) if isinstance(n, ast.If) and
-             any(isinstance(c, ast.Call) and (call_name(c) or "").endswith("layout_groups.append") for s in n.body
-                 for c in walk_no_nested(s)) and "!=" in src(n.test)]
-    if len(tests) != 1:
-        raise AnalysisError("_group_cues_by_layout: split test not found")
-    t = tests[0].test
-    parts = sorted(src(v) for v in t.values) if isinstance(t, ast.BoolOp) and isinstance(t.op, ast.And) else [src(t)]
-    want = sorted(["s", "current_layout", "node.layout_info != current_layout"])
-    if set(want) - set(parts):
-        raise AnalysisError(f"_group_cues_by_layout: split test shape not recognised: {parts}")
-    report.check(parts == want, "R-COMPLETE-CASES", (fn, tests[0]),
-                 "a new cue starts whenever a text node's layout differs from the current one (also when it has none)",
-                 {"tested": parts, "required": want,
-                  "extra_conditions": sorted(set(parts) - set(want))}, "5")
+    from . import webvtt_cues
+    webvtt_cues.splitting(ctx, report, "5")
